@@ -6,17 +6,7 @@ pub fn fmt_stub(_a: std::fmt::Arguments<'_>) -> String {
     String::new()
 }
 
-/// Exact rewrite of `f32::round` (half away from zero) that does not touch CBMC's rounding mode.
-/// `x - trunc(x)` is exact for every finite f32, so the result is bit-identical to roundf.
-pub fn round_stub(x: f32) -> f32 {
-    let t = x.trunc();
-    let d = (x - t).abs();
-    if d >= 0.5 {
-        t + x.signum()
-    } else {
-        t
-    }
-}
+pub use crate::shared_stubs::round_stub;
 
 /// `f32::ln` as an uninterpreted *function*: a fresh arbitrary value per distinct argument,
 /// memoised so that equal arguments give equal results (CBMC's logf does not guarantee that).
